@@ -189,16 +189,21 @@ def maskOf (bits : List Nat) : Mask := bits.foldl (fun m b => setBit m b true) 0
 def hasAny (m : Mask) (bits : List Nat) : Bool := bits.any (has m)
 def clearBits (m : Mask) (bits : List Nat) : Mask := bits.foldl (fun m b => setBit m b false) m
 
-/-- `NetworkFilter::parse` (without `raw_line`) -/
-def parseNetwork (line : Str) : PResult Rule := do
-  let parsed ← parseAbstract line
+/-! `NetworkFilter::parse` in stages (each stage is a plain function; the parser is their chain) -/
+
+/-- the option fold: validated options applied to the initial mask -/
+def optionState (parsed : Abstract) : PResult OptState :=
   let mask0 := maskOf [THIRD_PARTY, FIRST_PARTY, FROM_HTTPS, FROM_HTTP]
   let mask0 := if parsed.exception then setBit mask0 IS_EXCEPTION true else mask0
-  let st : OptState ← match parsed.options with
-    | some opts => do
-        validateOptions opts
-        pure (opts.foldl applyOption { mask := mask0 })
-    | none => pure { mask := mask0 }
+  match parsed.options with
+  | some opts =>
+    match validateOptions opts with
+    | .error e => .error e
+    | .ok () => .ok (opts.foldl applyOption { mask := mask0 })
+  | none => .ok { mask := mask0 }
+
+/-- request-type defaults, anchors and the regex flag, before the pattern is taken apart -/
+def maskBeforePattern (parsed : Abstract) (st : OptState) : Mask :=
   let pos := st.pos
   let neg := st.neg
   let allTypes : List Nat := FROM_ALL_TYPES
@@ -213,41 +218,43 @@ def parseNetwork (line : Str) : PResult Rule := do
     | some .double => setBit mask IS_HOSTNAME_ANCHOR true
     | some .single => setBit mask IS_LEFT_ANCHOR true
     | none => mask
-  let endUrlAnchor := parsed.ra
   let mask := if parsed.ra then setBit mask IS_RIGHT_ANCHOR true else mask
-  let pattern := parsed.pattern
-  let isRegex := checkIsRegex pattern
-  let mask := setBit mask IS_REGEX isRegex
+  setBit mask IS_REGEX (checkIsRegex parsed.pattern)
+
+/-- `/re/` spellings become complete regexes; `match-case` is only allowed on those -/
+def markComplete (mask : Mask) (pattern : Str) : PResult Mask :=
   let isFull := pattern.head? == some '/' && pattern.getLast? == some '/' && pattern.length > 1
-  let mask ← if isFull then pure (setBit mask IS_COMPLETE_REGEX true)
-    else if has mask MATCH_CASE then .error "MatchCaseWithoutFullRegex" else pure mask
-  -- hostname / pattern split for `||`
+  if isFull then .ok (setBit mask IS_COMPLETE_REGEX true)
+  else if has mask MATCH_CASE then .error "MatchCaseWithoutFullRegex" else .ok mask
+
+/-- hostname / pattern split for `||`: (mask, host text, start of the filter part) -/
+def splitHostPart (la : Option LAnchor) (mask : Mask) (pattern : Str) : Mask × Option Str × Nat :=
   let plen := pattern.length
-  let (mask, hostname, fStart) :=
-    match parsed.la with
-    | some .double =>
-      if isRegex then
-        match firstSeparator pattern with
-        | some i =>
-          let mask := if (pattern.drop i).head? == some '*' then setBit mask IS_HOSTNAME_REGEX true else mask
-          let host := pattern.take i
-          if plen - i == 1 && (pattern.drop i).head? == some '^' then
-            (setBit (setBit mask IS_REGEX false) IS_RIGHT_ANCHOR true, some host, plen)
-          else
-            (setBit (setBit mask IS_LEFT_ANCHOR true) IS_REGEX (checkIsRegex (pattern.drop i)), some host, i)
-        | none => (mask, none, 0)
-      else
-        match pattern.findIdx? (· == '/') with
-        | some i => (setBit mask IS_LEFT_ANCHOR true, some (pattern.take i), i)
-        | none => (mask, some pattern, plen)
-    | _ => (mask, none, 0)
+  match la with
+  | some .double =>
+    if checkIsRegex pattern then
+      match firstSeparator pattern with
+      | some i =>
+        let mask := if (pattern.drop i).head? == some '*' then setBit mask IS_HOSTNAME_REGEX true else mask
+        let host := pattern.take i
+        if plen - i == 1 && (pattern.drop i).head? == some '^' then
+          (setBit (setBit mask IS_REGEX false) IS_RIGHT_ANCHOR true, some host, plen)
+        else
+          (setBit (setBit mask IS_LEFT_ANCHOR true) IS_REGEX (checkIsRegex (pattern.drop i)), some host, i)
+      | none => (mask, none, 0)
+    else
+      match pattern.findIdx? (· == '/') with
+      | some i => (setBit mask IS_LEFT_ANCHOR true, some (pattern.take i), i)
+      | none => (mask, some pattern, plen)
+  | _ => (mask, none, 0)
+
+/-- trailing / leading `*`, scheme-only patterns, and the filter text that is left -/
+def filterSurgery (mask : Mask) (pattern : Str) (fStart : Nat) : Mask × Option Str :=
+  let plen := pattern.length
   let fEnd := plen
-  -- trailing `*`
   let fEnd := if fEnd > fStart && pattern.getLast? == some '*' then fEnd - 1 else fEnd
-  -- leading `*`
   let (mask, fStart) := if fEnd > fStart && (pattern.drop fStart).head? == some '*'
     then (setBit mask IS_LEFT_ANCHOR false, fStart + 1) else (mask, fStart)
-  -- scheme-only patterns
   let tail := pattern.drop fStart
   let (mask, fStart) :=
     if has mask IS_LEFT_ANCHOR then
@@ -261,33 +268,58 @@ def parseNetwork (line : Str) : PResult Rule := do
         (clearBits (setBit (setBit mask FROM_HTTPS true) FROM_HTTP true) [IS_LEFT_ANCHOR], fEnd)
       else (mask, fStart)
     else (mask, fStart)
-  let (mask, filter) :=
-    if fEnd > fStart then
-      let fs := (pattern.take fEnd).drop fStart
-      let mask := setBit mask IS_REGEX (checkIsRegex fs)
-      (mask, some (if has mask MATCH_CASE then fs else asciiLower fs))
-    else (mask, none)
-  -- hostname normalisation
-  let hostname ← match hostname with
-    | none => pure none
-    | some h =>
-      let rec stripWww (fuel : Nat) (h : Str) : Str :=
-        match fuel with
-        | 0 => h
-        | fuel + 1 => if startsWith "www." h then stripWww fuel (h.drop 4) else h
-      let h := if has mask IS_HOSTNAME_ANCHOR then stripWww h.length h else h
-      if h.all (fun c => c.val < 128) then pure (some (asciiLower h)) else .error "needsIdna"
+  if fEnd > fStart then
+    let fs := (pattern.take fEnd).drop fStart
+    let mask := setBit mask IS_REGEX (checkIsRegex fs)
+    (mask, some (if has mask MATCH_CASE then fs else asciiLower fs))
+  else (mask, none)
+
+def stripWww : Nat → Str → Str
+  | 0, h => h
+  | fuel + 1, h => if startsWith "www." h then stripWww fuel (h.drop 4) else h
+
+/-- hostname normalisation (`www.` stripping for `||`, lower-casing; IDNA is external) -/
+def normHost (mask : Mask) (hostname : Option Str) : PResult (Option Str) :=
+  match hostname with
+  | none => .ok none
+  | some h =>
+    let h := if has mask IS_HOSTNAME_ANCHOR then stripWww h.length h else h
+    if h.all (fun c => c.val < 128) then .ok (some (asciiLower h)) else .error "needsIdna"
+
+/-- the last checks and the rule value -/
+def finishNetwork (line : Str) (parsed : Abstract) (st : OptState) (mask : Mask) (filter hostname : Option Str) :
+    PResult Rule :=
   if has mask GENERIC_HIDE && !parsed.exception then .error "GenericHideWithoutException"
   else if has mask IS_REMOVEPARAM && parsed.exception then .error "RemoveparamWithException"
   else
-  let mask := if !hasAny pos allTypes && !hasAny neg allTypes && has mask IS_HOSTNAME_ANCHOR
-      && has mask IS_RIGHT_ANCHOR && !endUrlAnchor && !has mask IS_REMOVEPARAM
+  let allTypes : List Nat := FROM_ALL_TYPES
+  let mask := if !hasAny st.pos allTypes && !hasAny st.neg allTypes && has mask IS_HOSTNAME_ANCHOR
+      && has mask IS_RIGHT_ANCHOR && !parsed.ra && !has mask IS_REMOVEPARAM
     then mask ||| maskOf allTypes else mask
   -- explicitly negated request types
-  let mask := (List.range 32).foldl (fun m b => if has neg b then setBit m b false else m) mask
-  pure { mask, filter := match filter with | some f => .simple f | none => .empty,
-         hostname, domains := st.domains, notDomains := st.notDomains,
-         domainsUnion := st.domainsUnion, notDomainsUnion := st.notDomainsUnion,
-         modifier := st.modifier, tag := st.tag, id := fastHash line }
+  let mask := (List.range 32).foldl (fun m b => if has st.neg b then setBit m b false else m) mask
+  .ok { mask, filter := match filter with | some f => .simple f | none => .empty,
+        hostname, domains := st.domains, notDomains := st.notDomains,
+        domainsUnion := st.domainsUnion, notDomainsUnion := st.notDomainsUnion,
+        modifier := st.modifier, tag := st.tag, id := fastHash line }
+
+/-- `NetworkFilter::parse` (without `raw_line`) -/
+def parseNetwork (line : Str) : PResult Rule :=
+  match parseAbstract line with
+  | .error e => .error e
+  | .ok parsed =>
+  match optionState parsed with
+  | .error e => .error e
+  | .ok st =>
+  match markComplete (maskBeforePattern parsed st) parsed.pattern with
+  | .error e => .error e
+  | .ok mask =>
+  match splitHostPart parsed.la mask parsed.pattern with
+  | (mask, hostname, fStart) =>
+  match filterSurgery mask parsed.pattern fStart with
+  | (mask, filter) =>
+  match normHost mask hostname with
+  | .error e => .error e
+  | .ok hostname => finishNetwork line parsed st mask filter hostname
 
 end Adb.Parse
